@@ -258,6 +258,8 @@ def part_anonymize(ctx, tmp):
 
 # --------------------------------------------------------------------------- (b) settings round trip: exhaustive differential
 def part_settings(ctx):
+    from vyper.cli.vyper_json import get_settings
+    from vyper.compiler.output_bundle import SolcJSONWriter
     from vyper.compiler.settings import OptimizationLevel, Settings, VenomOptimizationFlags
     imports = ("From Verif Require Import C18.SettingsModel.\n"
                "Definition obsets := [[None;None;None;None;None]; [Some true;Some false;None;Some true;Some false];"
@@ -269,7 +271,9 @@ def part_settings(ctx):
                "  flat_map (fun e => flat_map (fun b => map (fun v =>\n"
                "    mks cv o e (nthb b 0) (nthb b 1) (nthb b 2) (nthb b 3) (nthb b 4) v) vfs) obsets) evms.\n"
                "Definition pack (l : list Z) : Z := fold_left (fun acc d => acc * 2048 + d)%Z l 1%Z.\n"
-               "Definition row s := pack (enc s ++ enc_res (from_dict (as_dict s)) ++ enc_res (Some (norm s)))%list.\n")
+               "From Verif Require Import C18.BundleSettings.\n"
+               "Definition row s := pack (enc s ++ enc_res (from_dict (as_dict s)) ++ enc_res (Some (norm s))"
+               " ++ enc_res (json_read_settings false (json_write_settings s)) ++ enc_res (json_read_settings true (json_write_settings s)))%list.\n")
     exprs = []
     for cv in ("None", '(Some "0.4.3"%string)'):
         for o in ["None"] + [f"(Some {l})" for l in ("NONE", "GAS", "CODESIZE", "O2", "O3", "Os")]:
@@ -313,7 +317,8 @@ def part_settings(ctx):
         return [1 if s.compiler_version else 0, LV.index(s.optimize), EV.index(s.evm_version), OB.index(s.experimental_codegen),
                 OB.index(s.debug), OB.index(s.enable_decimals), OB.index(s.nonreentrancy_by_default),
                 OB.index(s.disable_static_exceptions), enc_vf(s.venom_flags)]
-    W = 9 + 10 + 10
+    W = 9 + 10 + 10 + 10 + 10
+    reader_matches = {"snapshot": 0, "repaired": 0, "neither": 0}
     assert len(out) % W == 0 and len(out) > 0, len(out)
     n = len(out) // W
     bad = 0
@@ -322,7 +327,7 @@ def part_settings(ctx):
                    "disable_mem2var", "disable_remove_unused_variables"]
     for i in range(n):
         row = out[i * W:(i + 1) * W]
-        e, model_rt, model_norm = row[:9], row[9:19], row[19:]
+        e, model_rt, model_norm, model_json, model_json_fixed = row[:9], row[9:19], row[19:29], row[29:39], row[39:]
         s = dec(e)
         if enc(s) != e:
             raise AssertionError(("harness encoding", e, enc(s)))
@@ -335,12 +340,35 @@ def part_settings(ctx):
                 real = [2]
         except Exception as ex:  # noqa
             real = [0] + [0] * 9
+        # solc_json: real SolcJSONWriter.write_settings -> json text -> vyper_json.get_settings
+        try:
+            w = SolcJSONWriter.__new__(SolcJSONWriter)
+            w._output = {"language": "Vyper", "sources": {}, "settings": {"outputSelection": {}}}
+            w.write_settings(s)
+            with warnings.catch_warnings():
+                warnings.simplefilter("ignore")
+                rj = get_settings(json.loads(json.dumps(w._output)))
+            real_json = [1] + enc(rj)
+            if rj.venom_flags is not None and any(getattr(rj.venom_flags, f) for f in other_flags):
+                real_json = [2]
+        except Exception as ex:  # noqa
+            real_json = [0] + [0] * 9
+        if model_json != model_json_fixed:   # rows on which the two reader models differ decide which one /repo implements
+            reader_matches["snapshot" if real_json == model_json else "repaired" if real_json == model_json_fixed else "neither"] += 1
+        if real_json != model_json and real_json != model_json_fixed:
+            bad += 1
+            if bad <= 2:
+                ctx.violation("correspondence-broken", "solc_json settings write/read: BundleSettings.v differs from output_bundle/vyper_json",
+                              {"settings_enc": e, "model_snapshot_reader": model_json, "model_repaired_reader": model_json_fixed, "real": real_json})
         if real != model_rt or model_rt != model_norm:
             bad += 1
             if bad <= 2:
                 ctx.violation("correspondence-broken", "Settings round trip: model differs from vyper.compiler.settings",
                               {"settings_enc": e, "model_roundtrip": model_rt, "model_norm": model_norm, "real_roundtrip": real})
     ctx.corr["settings_cases"] = n
+    ctx.corr["solc_json_reader_matches"] = reader_matches
+    if reader_matches["snapshot"] and reader_matches["repaired"]:
+        ctx.violation("correspondence-broken", "vyper_json.get_settings matches neither reader model consistently", reader_matches)
     return n, bad
 
 
@@ -664,6 +692,77 @@ def part_bundles(ctx, root, tmp):
                     return stats
     finally:
         os.chdir(cwd)
+    # settings that change the build must survive both bundle formats (replay of bundle_roundtrip_solc_json_settings_refuted)
+    from vyper.compiler.settings import VenomOptimizationFlags
+    vdir = tmp / "settings_variants"
+    vdir.mkdir()
+    (vdir / "d.vy").write_text("x: public(uint256)\n@internal\ndef _h(a: uint256) -> uint256:\n    return a * 2 + self.x\n"
+                               "@external\ndef f(a: uint256) -> uint256:\n    self.x = self._h(a) + self._h(a + 1)\n"
+                               "    b: uint256 = a * 3\n    c: uint256 = a * 3\n    return self.x + b + c\n")
+    (vdir / "c.vy").write_text("@external\ndef f(a: uint256) -> uint256:\n    assert 1 == 2\n    return a\n")
+    G = OptimizationLevel.GAS
+    variants = [
+        ("venom_flags(disable_inlining, disable_cse)", "d.vy", lambda: Settings(experimental_codegen=True, optimize=G, venom_flags=VenomOptimizationFlags(level=G, disable_inlining=True, disable_cse=True)), lambda: Settings(experimental_codegen=True, optimize=G)),
+        ("venom_flags(disable_sccp, disable_mem2var)", "d.vy", lambda: Settings(experimental_codegen=True, optimize=G, venom_flags=VenomOptimizationFlags(level=G, disable_sccp=True, disable_mem2var=True)), lambda: Settings(experimental_codegen=True, optimize=G)),
+        ("disable_static_exceptions", "c.vy", lambda: Settings(disable_static_exceptions=True), lambda: Settings()),
+        ("debug", "d.vy", lambda: Settings(debug=True), lambda: Settings()),
+        ("evm_version=london", "d.vy", lambda: Settings(evm_version="london"), lambda: Settings()),
+        ("optimize=none", "d.vy", lambda: Settings(optimize=OptimizationLevel.NONE), lambda: Settings()),
+    ]
+
+    def one(src, st, fmts):
+        import contextlib
+        import io
+        with warnings.catch_warnings(), contextlib.redirect_stdout(io.StringIO()), contextlib.redirect_stderr(io.StringIO()):
+            warnings.simplefilter("ignore")
+            return list(compile_files([str(vdir / src)], fmts, paths=[str(vdir)], include_sys_path=False, settings=st).values())[0]
+    os.chdir(str(vdir))
+    try:
+        for name, src, mk, mk0 in variants:
+            try:
+                base, plain = one(src, mk(), ["bytecode"])["bytecode"], None
+                try:
+                    plain = one(src, mk0(), ["bytecode"])["bytecode"]
+                except Exception:  # noqa
+                    plain = "rejected"
+            except Exception as ex:  # noqa
+                ctx.violation("correspondence-broken", "settings-variant program does not compile", {"variant": name, "error": str(ex)[:200]})
+                continue
+            if base == plain:
+                stats["settings_variant_without_effect"] += 1
+                continue
+            z = tmp / "variant.zip"
+            z.write_bytes(one(src, mk(), ["archive"])["archive"])
+            try:
+                ba = one(str(z), None, ["bytecode"])["bytecode"]
+            except Exception as ex:  # noqa
+                ba = f"rejected: {type(ex).__name__}"
+            sj = one(src, mk(), ["solc_json"])["solc_json"]
+            sj = sj if isinstance(sj, dict) else json.loads(sj)
+            try:
+                import contextlib
+                import io
+                with warnings.catch_warnings(), contextlib.redirect_stdout(io.StringIO()), contextlib.redirect_stderr(io.StringIO()):
+                    warnings.simplefilter("ignore")
+                    res, _ = compile_from_input_dict(json.loads(json.dumps(sj)))
+                bj = list(res.values())[0].get("bytecode")
+            except Exception as ex:  # noqa
+                bj = f"rejected: {type(ex).__name__}: {str(ex)[:80]}"
+            stats["settings_variant_roundtrips"] += 2
+            if ba != base:
+                ctx.violation("failing-input", f"archive bundle does not reproduce a build made with {name}",
+                              {"variant": name, "source": (vdir / src).read_text(), "original": base[:120], "from_bundle": str(ba)[:120]},
+                              key="C18:archive-drops-settings")
+            if bj != base:
+                stats["solc_json_drops_settings"] += 1
+                if stats["solc_json_drops_settings"] == 1:
+                    ctx.violation("failing-input", f"solc_json bundle does not reproduce a build made with {name}: the setting is lost on re-import",
+                                  {"variant": name, "source": (vdir / src).read_text(), "exported_settings": sj.get("settings"),
+                                   "original": base[:120], "from_bundle": str(bj)[:160],
+                                   "replay": "vyper -f solc_json (with the setting) > b.json; vyper-json b.json: different bytecode"},
+                                  key="C18:solc-json-drops-settings")
+    finally:
+        os.chdir(cwd)
     # the collision shape forced by the missing domain separation (override_vs_none_separated): a module whose text
     # is the override JSON -- must not be a compilable module
     from vyper.compiler import compile_code
@@ -680,7 +779,7 @@ def part_bundles(ctx, root, tmp):
 
 def run(ctx):
     b = ctx.coq_build(["C18/Integrity.v", "C18/IntegrityProofs.v", "C18/SettingsModel.v", "C18/SettingsProofs.v", "C18/Anonymize.v",
-                       "C18/PropsC18.v"])
+                       "C18/BundleSettings.v", "C18/BundleSettingsProofs.v", "C18/PropsC18.v"])
     tmp = Path(tempfile.mkdtemp(prefix="c18_"))
     found_before = len(ctx.violations)
     try:
